@@ -1,0 +1,18 @@
+// SPDX-FileCopyrightText: 2026 The Pion community <https://pion.ly>
+// SPDX-License-Identifier: MIT
+
+//go:build !verif
+
+// Package verifhook provides instrumentation points for runtime verification.
+// Without the verif build tag every function is an inlinable no-op.
+package verifhook
+
+import dtlsflight "github.com/pion/dtls/v3/internal/flight"
+
+// At marks a point at which a monitor may inject a delay or yield.
+func At(any, string) {}
+
+// FilterFlight lets a monitor replace the packets of a freshly generated flight.
+func FilterFlight(_ any, _ bool, _ string, _, _ any, pkts []*dtlsflight.Packet) []*dtlsflight.Packet {
+	return pkts
+}
